@@ -350,16 +350,19 @@ def r5_collections(ctx, nf) -> None:
         ty_prop = c.methods.get("ty")
         idx = None
         if ty_prop is not None:
-            rets = [r for r in ast.walk(ty_prop) if isinstance(r, ast.Return)]
-            if rets and isinstance(rets[0].value, ast.Attribute) and isinstance(rets[0].value.value, ast.Subscript):
+            # (canonical body: a shared lookup helper is seen through)
+            rets = [r for r in ast.walk(ctx.cfn(f"{c.qualname}.ty")) if isinstance(r, ast.Return)]
+            if len(rets) == 1 and isinstance(rets[0].value, ast.Attribute) and rets[0].value.attr == "ty" and isinstance(rets[0].value.value, ast.Subscript) \
+                    and u(rets[0].value.value.value) == "self.args":
                 sl = rets[0].value.value.slice
                 idx = sl.value if isinstance(sl, ast.Constant) else None
         tbm = c.methods.get("type_bound")
         if bound["b"] == "FromParams":
             want_idx = bound["indices"]
             if tbm is not None:
-                rb = real_body(tbm)
-                ok = len(rb) == 1 and isinstance(rb[0], ast.Return) and u(rb[0].value) == "self.ty.type_bound()" and [idx] == want_idx
+                rb = [x for x in ctx.cfn(f"{c.qualname}.type_bound").body if not isinstance(x, ast.Assert)]
+                ok = len(rb) == 1 and isinstance(rb[0], ast.Return) and ((u(rb[0].value) == "self.ty.type_bound()" and [idx] == want_idx)
+                                                                         or (len(want_idx) == 1 and u(rb[0].value) == f"self.args[{want_idx[0]}].ty.type_bound()"))
                 ctx.check(ok, "C07.R5", f"{c.qualname}.type_bound", mod.path, tbm.lineno,
                           f"{cname}'s definition takes its bound from parameter(s) {want_idx}: the override must return the bound of the argument "
                           f"at that index (self.ty reads args[{idx}])", tbm, expected=f"self.args[{want_idx[0]}].ty.type_bound()", found=u(rb[0]) if rb else "")
@@ -390,7 +393,7 @@ def r5_collections(ctx, nf) -> None:
                           f"{cname}'s definition requires copyable elements (parameter bound C, explicit bound {want}): the constructor must raise "
                           "ValueError for a non-copyable element before storing the arguments", init, detail="ValueError guard dominates self.args = ...")
             if tbm is not None:
-                rb = real_body(tbm)
+                rb = [x for x in ctx.cfn(f"{c.qualname}.type_bound").body if not isinstance(x, ast.Assert)]
                 if len(rb) == 1 and isinstance(rb[0], ast.Return) and u(rb[0].value) == "self.ty.type_bound()" and need_copy:
                     ctx.ok("C07.R5", f"{c.qualname}.type_bound", f"element bound, which the constructor guard pins to {want}")
                 else:
